@@ -133,6 +133,144 @@ func genC13(p *Pkg) (map[string]string, error) {
 	} else {
 		guards = append(guards, "argumentsObject.exportType: absent")
 	}
+	// structural facts about the bodies the models transcribe (decision structure, not incidental statements)
+	inBody := func(recv, name string, pred func(ast.Node) bool) (bool, error) {
+		fd := p.FuncDecl(recv, name)
+		if fd == nil || fd.Body == nil {
+			return false, fmt.Errorf("%s.%s not found", recv, name)
+		}
+		found := false
+		ast.Inspect(fd.Body, func(n ast.Node) bool {
+			if n != nil && pred(n) {
+				found = true
+			}
+			return !found
+		})
+		return found, nil
+	}
+	callsFn := func(name string) func(ast.Node) bool {
+		return func(n ast.Node) bool {
+			c, ok := n.(*ast.CallExpr)
+			if !ok {
+				return false
+			}
+			s := types.ExprString(c.Fun)
+			return s == name || strings.HasSuffix(s, "."+name)
+		}
+	}
+	rangesOver := func(x string, inner func(ast.Node) bool) func(ast.Node) bool {
+		return func(n ast.Node) bool {
+			r, ok := n.(*ast.RangeStmt)
+			if !ok || types.ExprString(r.X) != x {
+				return false
+			}
+			hit := false
+			ast.Inspect(r.Body, func(m ast.Node) bool {
+				if m != nil && inner(m) {
+					hit = true
+				}
+				return !hit
+			})
+			return hit
+		}
+	}
+	assignsTo := func(lhs string) func(ast.Node) bool {
+		return func(n ast.Node) bool {
+			a, ok := n.(*ast.AssignStmt)
+			if !ok {
+				return false
+			}
+			for _, l := range a.Lhs {
+				if types.ExprString(l) == lhs {
+					return true
+				}
+			}
+			return false
+		}
+	}
+	type fact struct {
+		label, recv, name string
+		pred              func(ast.Node) bool
+	}
+	for _, f := range []fact{
+		{"objectGoReflect.setReflectValue: re-points the cached field wrappers", "objectGoReflect", "setReflectValue", rangesOver("o.valueCache", callsFn("setReflectValue"))},
+		{"objectGoArrayReflect.setReflectValue: re-points the cached element wrappers", "objectGoArrayReflect", "setReflectValue", rangesOver("o.valueCache", callsFn("setReflectValue"))},
+		{"valueArrayCache.shrink: detaches the cut-off wrappers", "valueArrayCache", "shrink", rangesOver("tail", callsFn("copyReflectValueWrapper"))},
+		{"valueArrayCache.shrink: clears the cut-off slots", "valueArrayCache", "shrink", rangesOver("tail", assignsTo("tail[i]"))},
+		{"objectGoArrayReflect._putIdx: detaches the cached wrapper", "objectGoArrayReflect", "_putIdx", callsFn("copyReflectValueWrapper")},
+		{"objectGoArrayReflect._deleteIdx: detaches the cached wrapper", "objectGoArrayReflect", "_deleteIdx", callsFn("copyReflectValueWrapper")},
+		{"objectGoSliceReflect.grow: re-points the cached wrappers after re-allocation", "objectGoSliceReflect", "grow", callsFn("setReflectValue")},
+		{"objectGoSlice.grow: clears the re-exposed tail", "objectGoSlice", "grow", rangesOver("tail", assignsTo("tail[k]"))},
+		{"objectGoSlice.shrink: clears the cut-off tail", "objectGoSlice", "shrink", rangesOver("tail", assignsTo("tail[k]"))},
+		{"objectExportCtx.putTyped: carries an earlier untyped entry into the per-type table", "objectExportCtx", "putTyped", assignsTo("m[key.self.exportType()]")},
+		{"baseObject.export: caches before exporting the children", "baseObject", "export", callsFn("put")},
+		{"arrayObject.export: caches before exporting the children", "arrayObject", "export", callsFn("put")},
+	} {
+		ok, err := inBody(f.recv, f.name, f.pred)
+		if err != nil {
+			return nil, err
+		}
+		if ok {
+			guards = append(guards, f.label)
+		} else {
+			guards = append(guards, "MISSING "+f.label)
+		}
+	}
+	// decision order of Runtime.toReflectValue: the leading `if typ == …` tests, then the Kind switch's case list
+	var toReflect []string
+	if fd := p.FuncDecl("Runtime", "toReflectValue"); fd != nil && fd.Body != nil {
+		for _, st := range fd.Body.List {
+			switch s := st.(type) {
+			case *ast.IfStmt:
+				if s.Init == nil {
+					toReflect = append(toReflect, "if "+types.ExprString(s.Cond))
+				}
+			case *ast.ForStmt:
+				toReflect = append(toReflect, "for: AssignableTo / ConvertibleTo / pointer-stripping loop")
+			case *ast.SwitchStmt:
+				if s.Tag != nil && types.ExprString(s.Tag) == "kind" {
+					for _, c := range s.Body.List {
+						cc := c.(*ast.CaseClause)
+						var names []string
+						for _, e := range cc.List {
+							names = append(names, types.ExprString(e))
+						}
+						toReflect = append(toReflect, "case "+strings.Join(names, "|"))
+					}
+				}
+			}
+		}
+	} else {
+		return nil, fmt.Errorf("Runtime.toReflectValue not found")
+	}
+	// the argument loop of wrapReflectFunc: the conditions that decide where a script argument goes
+	var argLoop []string
+	if wf := p.FuncDecl("Runtime", "wrapReflectFunc"); wf != nil {
+		ast.Inspect(wf.Body, func(n ast.Node) bool {
+			r, ok := n.(*ast.RangeStmt)
+			if !ok || types.ExprString(r.X) != "call.Arguments" {
+				return true
+			}
+			ast.Inspect(r.Body, func(m ast.Node) bool {
+				if ifs, ok := m.(*ast.IfStmt); ok && ifs.Init == nil {
+					c := types.ExprString(ifs.Cond)
+					if strings.Contains(c, "nargs") {
+						argLoop = append(argLoop, c)
+					}
+				}
+				return true
+			})
+			return false
+		})
+		ast.Inspect(wf.Body, func(n ast.Node) bool {
+			if ifs, ok := n.(*ast.IfStmt); ok && ifs.Init != nil {
+				if as, ok := ifs.Init.(*ast.AssignStmt); ok && len(as.Rhs) == 1 && types.ExprString(as.Rhs[0]) == "len(call.Arguments)" {
+					argLoop = append([]string{"alloc: " + types.ExprString(ifs.Cond)}, argLoop...)
+				}
+			}
+			return true
+		})
+	}
 	var b strings.Builder
 	b.WriteString("-- generated by extract/c13.go from runtime.go (Runtime.toValue) and the Go wrapper files; do not edit\n")
 	b.WriteString("namespace GojaModel.Generated.C13\n")
@@ -140,6 +278,8 @@ func genC13(p *Pkg) (map[string]string, error) {
 	b.WriteString("def toValueKindCases : List String := " + list(kindCases) + "\n")
 	b.WriteString("def toValueMapKeyKinds : List String := " + list(keyKinds) + "\n")
 	b.WriteString("def guards : List String := " + list(guards) + "\n")
+	b.WriteString("def toReflectOrder : List String := " + list(toReflect) + "\n")
+	b.WriteString("def argLoopConds : List String := " + list(argLoop) + "\n")
 	b.WriteString("end GojaModel.Generated.C13\n")
 	return map[string]string{"C13_ToValue.lean": b.String()}, nil
 }
